@@ -138,12 +138,10 @@ func (r *R) sthInput(cs *Case) {
 // the signature over the independent input under the log key.
 //
 // RFC 6962 permits only SHA-256 (with RSA or ECDSA P-256). What is demanded:
-//   - hash id = sha256(4): accepts  <=>  stdlib verifies (for ECDSA, a band
-//     between strict DER and sloppy BER encodings of a valid (r,s) is left open);
-//   - any other hash id: refusing is always right; accepting is tolerated only
-//     if the signature really is one over the input under the hash the id
-//     names (so a verifier that ignores the id is caught, one that merely
-//     supported more hashes would not be);
+//   - hash id = sha256(4): accepts  <=>  stdlib verifies (for ECDSA one band is
+//     left open: a strict DER signature followed by further bytes, which the
+//     verifier tolerates and logs by design);
+//   - any other hash id: must be refused (RFC 6962 permits only SHA-256);
 //   - the structure itself must be a legal v1 value, otherwise nothing is covered.
 func (r *R) verify(cs *Case) {
 	r.evals++
@@ -210,6 +208,11 @@ func (r *R) verify(cs *Case) {
 		strict, lenient, rwhy = refVerify(stdPub[cs.Key], cs.Hash, cs.SigAlg, ref, cs.Sig)
 	}
 	mustAccept := strict && cs.Hash == 4 && (cs.Kind == "sth-verify" || cs.entryConsistent())
+	if accepted && cs.Hash != 4 {
+		// RFC 6962 §2.1.4: "A log MUST use ... SHA-256"; the package documents "only SHA256 is supported".
+		r.viol(fn+": accepts a signature labelled with a hash id other than sha256(4)", cs, fmt.Sprintf("hash=%d sigalg=%d key=%s stdlib-under-that-hash=%v", cs.Hash, cs.SigAlg, cs.Key, strict))
+		return
+	}
 	switch {
 	case accepted && !lenient:
 		if cs.Hash != 4 && rwhy != "hash id names no hash function" && valid {
@@ -226,7 +229,7 @@ func (r *R) verify(cs *Case) {
 	case accepted && strict:
 		r.h[tag+": verify: accepted (stdlib verifies)"]++
 	case accepted:
-		r.observe(fn+" accepts an ECDSA signature whose (r,s) verify but whose encoding is not strict DER (crypto/ecdsa.VerifyASN1 rejects it)", cs)
+		r.observe(fn+" accepts a strict DER ECDSA signature followed by further bytes (tolerated and logged by design: 'Garbage following signature')", cs)
 	case strict && cs.Hash != 4:
 		r.h["verify: rejected a genuine signature labelled with hash id≠sha256 (RFC 6962 permits only sha256)"]++
 	case strict:
